@@ -196,9 +196,13 @@ def cfg_twins(ctx, pfx='C14', need_both=True):
             # the public key handed to the evaluation is derived, in this very call, from the storage's own private key
             # (a value cached across calls or storages — seeded change C18-r2-b used a process-wide OnceLock — makes the
             # batch path's labels differ from what get_node_label / get_label_proof produce under the real key)
-            pkdefs = [short(t.get('res') or t.get('fn')) or '' for pos, t in b.call_sites()
-                      if len(t.get('dest', [])) == 1 and t['dest'][0] in b.local_named('pk')]
-            okpk = bool(pkdefs) and all(d.endswith('::from') and 'VRFPublicKey' in d for d in pkdefs)
+            # (name-independent: a VRFPublicKey::from(&key) conversion happens in this call, and nothing in the function
+            # or its tasks goes through a once-initialised cell)
+            allc = [short(t.get('res') or t.get('fn')) or '' for bb in bodies for pos, t in bb.call_sites()]
+            pkdefs = [d for d in allc if d.endswith('::from') and 'VRFPublicKey' in d]
+            cached = [d for d in allc if any(w in d for w in ('OnceLock', 'OnceCell', 'LazyLock', 'Lazy::', 'get_or_init', 'thread_local'))]
+            okpk = bool(pkdefs) and not cached
+            pkdefs = pkdefs + cached
             ok = okk and okt and okp and okpk
             detail = 'node label = get_node_label_with_expanded_key(key, pk, label, freshness, version) of each element, pushed as ((label, freshness, version, value), node_label)' \
                 if ok else 'key=%s element-components=%s paired=%s pk-derived-from-own-key=%s %s' % (okk, comp, okp, okpk, pkdefs)
